@@ -231,6 +231,10 @@ def _fresh(ctx, fn: FunctionInfo, e: ast.AST, use: ast.AST, depth: int = 0, trai
         return "literal", trail + [f"{fn.qualname}: literal {e.value!r}"]
     if isinstance(e, ast.JoinedStr) or isinstance(e, ast.BinOp):
         return "literal", trail + [f"{fn.qualname}: built string {A.unparse(e)[:40]}"]
+    if isinstance(e, ast.Call) and isinstance(e.func, ast.Attribute) and e.func.attr in ("replace", "format", "join", "removeprefix", "removesuffix", "strip", "lstrip", "rstrip", "lower", "upper", "zfill", "ljust", "rjust", "translate", "format_map"):
+        # a name derived from another name by a string operation was not handed out by the generator: its
+        # counter does not move, the name can be handed out again (or exist already)
+        return "literal", trail + [f"{fn.qualname}: name derived by a string operation {A.unparse(e)[:50]}"]
     if isinstance(e, ast.Name) and depth < 5:
         params = [p.arg for p in fn.params]
         verdicts = []
